@@ -389,6 +389,11 @@ class Subscriber(object):
             self._deliver(topic, msg)
 
     def _deliver(self, topic, msg):
+        if isinstance(msg, (list, tuple)) and not msg:
+            # delivery of a periodic empty publication: not activity either
+            with self._net.lock:
+                self._net._rpverif_idle_marks = \
+                        getattr(self._net, '_rpverif_idle_marks', 0) + 1
         self._net._event('deliver', self._url, topic, None, who=self._uid)
         for cb, lock in list(self._callbacks):
             try:
